@@ -1,7 +1,7 @@
 import Operon.Model.QuorumTab
 /-!
-# C06 - the evaluated weight table against the model (kept in its own module: lake checks it in parallel with
-`Lemmas/C06Tab.lean`; core Lean only)
+# C06 - the evaluated weight table against the model (core Lean only; used by Props/C06T.lean, which lake checks in
+parallel with Props/C06.lean)
 -/
 namespace Operon.Quorum
 open Operon.Gen.Quorum
@@ -11,9 +11,10 @@ def weightRowOk (row : (Nat × Option Rat × Nat) × Nat) : Bool :=
   | some cfg => agreeB (unpack weightBallots.length row.2) (weightBallots.map (outcomeCode cfg))
   | none => false
 
-/-- every row of the evaluated weight table (WEIGHTED / CONFIDENCE / BAYESIAN x every multiset of <= 3 voters of the
-    alphabet) is reproduced by `runVote`; digit 7 = not compared (float boundary) -/
-theorem weightTable_ok : weightTable.all weightRowOk = true := by decide +kernel
+/-- "every row of the evaluated weight table (WEIGHTED / CONFIDENCE / BAYESIAN x every multiset of <= 3 voters of the
+    alphabet) is reproduced by `runVote`; digit 7 = not compared (float boundary)": established with `decide +kernel`
+    inside `c06_weight_tables_agree` (Props/C06T.lean) -/
+def WeightTableOk : Prop := weightTable.all weightRowOk = true
 
 theorem agreeB_get {ds ms : List Nat} (h : agreeB ds ms = true) :
     ds.length = ms.length ∧ ∀ (i : Nat) d m, ds[i]? = some d → ms[i]? = some m → d = 7 ∨ d = m := by
